@@ -154,6 +154,7 @@ static const Fmt FMTS[] = {
 	/* 33 */ { "#%u uchar %hhu then int %d", SH_UDD, HZ_GEN },
 	/* 34 */ { ".", SH_NONE, HZ_GEN },                     // the shortest messages there are
 	/* 35 */ { "ab", SH_NONE, HZ_GEN },
+	/* 36 */ { "#%u nothing after the marker %d\a", SH_UD, HZ_GEN },     // QB_XS with an empty extended part
 };
 #define N_FMTS ((int)(sizeof FMTS / sizeof FMTS[0]))
 #define N_BASE_FMTS 23
@@ -391,7 +392,7 @@ static void gen_logs(Rng &r, Plan &p, int n, const bool hz[HZ_N])
 		int fid;
 		uint32_t c = (uint32_t)r.below(100);
 		if (c < 70 || (c < 82 && !hz[HZ_GEN])) fid = (int)r.below(N_BASE_FMTS);
-		else if (c < 82) fid = r.chance(1, 5) ? 31 + (int)r.below(5) : 30;
+		else if (c < 82) fid = r.chance(1, 5) ? 31 + (int)r.below(6) : 30;
 		else {
 			fid = N_BASE_FMTS + (int)r.below((uint64_t)(N_FMTS - N_BASE_FMTS));
 			if (!hz[FMTS[fid].hazard]) fid = (int)r.below(N_BASE_FMTS);
